@@ -3,9 +3,9 @@ Model of `dfir_lang/src/union_find.rs` (`UnionFind<K>` over a `SecondaryMap<K, K
 transcribed line by line.  Keys are `Nat`; the `SecondaryMap` is a partial function.
 
 `find` is recursive; the model takes fuel (= recursion depth).  `findN n` uses fuel `n + 1`
-where `n` bounds the keys; `Props/C17.lean` proves (`ufFind_fuel_suffices`) that this is never
-exhausted, for *every* link map over keys `< n` (the self-link written by `insert(k, k)` before
-recursing guards against cycles).
+where `n` bounds the keys; `Proofs/UnionFind.lean` (`ufFind_spec`, exported as `uf_find_spec`) proves
+that on every forest over keys `< n` this fuel is not exhausted (each recursive call removes one
+non-self link below `n`) and the result is the root.
 -/
 namespace HvGraphAlg
 
@@ -31,7 +31,7 @@ pub fn find(&mut self, k: K) -> K {
 ```
 -/
 def ufFind : Nat → Links → Nat → Links × Nat
-  | 0, l, k => (l, k)                      -- out of fuel (unreachable, see `ufFind_fuel_suffices`)
+  | 0, l, k => (l, k)                      -- out of fuel (unreachable, see `ufFind_spec`)
   | fuel + 1, l, k =>
     match l k with
     | none => (l.set k k, k)
